@@ -4,6 +4,7 @@ set() as a context manager restores the previous values.     Engine: E-simhist."
 from __future__ import annotations
 
 import copy
+from collections.abc import Mapping
 
 from .. import simhist
 from ..core import Rng, Violation, bump, new_result, plan_digest
@@ -47,7 +48,8 @@ EXPECTED_PROBES = ["alt_spelling_hit", "with_nested", "with_restored_insert", "w
                    "kw_form", "mapping_value_replaced_subtree", "global_arm", "device_via_defaults_rejected",
                    "device_via_defaults_accepted", "falsy_value_set", "falsy_value_read_with_default",
                    "same_key_in_mapping_and_kwargs", "doubled_separator_key_in_mapping",
-                   "sequence_value_set", "path_depth_ge_4", "get_override_with"]
+                   "sequence_value_set", "path_depth_ge_4", "get_override_with",
+                   "defaults_with_non_dict_mappings"]
 
 NODES = ["n1", "sec_a", "grp_b_c", "Sec_B2"]
 LEAVES = ["x", "y", "opt_one", "lim_lo_hi", "verbose", "dd__k", "Mixed_Case", "k9"]
@@ -170,7 +172,8 @@ def _gen_op(r, i, kinds, depth=0):
                 "dup": r.chance(0.3),
                 "body": body, "raise_inside": r.chance(0.15)}
     if k == "defaults":
-        return {"op": "defaults", "tree": _gen_defaults_tree(r, i)}
+        return {"op": "defaults", "tree": _gen_defaults_tree(r, i),
+                "wrap": r.fork("wrap").pick([None] * 5 + ["proxy", "userdict", "ordered", "mixed"])}
     if k == "refresh":
         return {"op": "refresh"}
     if k == "get":
@@ -204,9 +207,44 @@ def norm_key(k):
 
 
 def norm(d):
-    if isinstance(d, dict):
+    if isinstance(d, Mapping):      # any mapping (dict, MappingProxyType, UserDict, ...) by content
         return {norm_key(k): norm(v) for k, v in d.items()}
     return d
+
+
+def plain(d):
+    """Deep copy that turns every Mapping into a dict (MappingProxyType cannot be deep-copied)."""
+    if isinstance(d, Mapping):
+        return {k: plain(v) for k, v in d.items()}
+    return copy.deepcopy(d)
+
+
+def wrap(tree, kind, depth=0):
+    """The same nested defaults with non-dict Mapping types at the nested levels (the API is typed
+    Mapping: yaml loaders, OmegaConf, read-only views)."""
+    import collections
+    import types
+
+    if not isinstance(tree, dict):
+        return tree
+    inner = {k: wrap(v, kind, depth + 1) for k, v in tree.items()}
+    if depth == 0 or not kind:
+        return inner
+    k_ = kind if kind != "mixed" else ["proxy", "userdict", "ordered", "chain"][depth % 4]
+    return {"proxy": types.MappingProxyType, "userdict": collections.UserDict,
+            "ordered": collections.OrderedDict, "chain": collections.ChainMap}[k_](inner)
+
+
+def foreign_container(d, path=""):
+    """A nested container of the STORE that is a Mapping but not a dict (merging must produce dicts)."""
+    if isinstance(d, Mapping):
+        if not isinstance(d, dict):
+            return f"{path or '.'}: {type(d).__name__}"
+        for k, v in d.items():
+            r = foreign_container(v, f"{path}.{k}")
+            if r:
+                return r
+    return None
 
 
 def m_lookup(M, path):
@@ -351,8 +389,8 @@ def run(plan):
     try:
         if plan.get("init_defaults"):
             cm.update_defaults(copy.deepcopy(plan["init_defaults"]), **rkw)
-        M = norm(copy.deepcopy(cfg))
-        D = [norm(copy.deepcopy(d)) for d in dfl]
+        M = norm(plain(cfg))
+        D = [norm(plain(d)) for d in dfl]
         kinds = []
         n_mut = [0]
         dirty_since_refresh = [False]
@@ -362,10 +400,16 @@ def run(plan):
 
         def resync():
             nonlocal M, D
-            M = norm(copy.deepcopy(cfg))
-            D = [norm(copy.deepcopy(d)) for d in dfl]
+            M = norm(plain(cfg))
+            D = [norm(plain(d)) for d in dfl]
 
         def compare(tag, opkind):
+            fc = foreign_container(cfg)
+            if fc:
+                viol("state_mismatch", f"after {tag}: the store holds a non-dict mapping at {fc}",
+                     f"state_mismatch:{opkind}:foreign_container")
+                resync()
+                return False
             d = _first_diff(norm(cfg), M)
             if d:
                 viol("state_mismatch", f"after {tag}: {d}", f"state_mismatch:{opkind}")
@@ -373,7 +417,7 @@ def run(plan):
                 return False
             # the accumulated defaults (what the next refresh will restore)
             try:
-                real_defaults = m_merged([norm(copy.deepcopy(x)) for x in dfl])
+                real_defaults = m_merged([norm(plain(x)) for x in dfl])
             except Exception as e:
                 real_defaults = {"<unmergeable>": repr(e)}
             d = _first_diff(real_defaults, m_merged(D))
@@ -515,7 +559,9 @@ def run(plan):
                         bump(probes, "with_restored_replace")
                 compare(tag + ":exit", "with_exit")
             elif k == "defaults":
-                tree = copy.deepcopy(op["tree"])
+                tree = wrap(copy.deepcopy(op["tree"]), op.get("wrap"))
+                if op.get("wrap"):
+                    bump(probes, "defaults_with_non_dict_mappings")
                 try:
                     cm.update_defaults(tree, **rkw)
                 except Exception as e:
